@@ -349,6 +349,16 @@ def run(ctx):
                     ctx.bad('C09.7-header-data-kept', inst, 'on this way into start_fragment the header\'s atom_cache_data never reaches the message (no FragmentedMessage::new(.., atom_cache_data) and no `msg.atom_cache_data = ..` before the payload is added): '
                             'a header that arrives after one of its continuations loses its atom-cache section', ctx.where(SB, bb), key='PROV:%s::start_fragment:atom_cache_data-dropped' % FA)
 
+    # ... and only the header writes it: a continuation carries no atom-cache section and must leave the stored one alone
+    AFB = P.B(FA + '::add_fragment')
+    if AFB is not None:
+        wr = [(bb, st) for bb, st in field_assigns(AFB, FM, 'atom_cache_data') if bb in AFB.live_blocks()]
+        if wr:
+            ctx.bad('C09.7-header-data-kept', 'add_fragment:atom_cache_data', 'the continuation entry point assigns atom_cache_data of the pending message: the section the header brought is overwritten (with nothing) by the next '
+                    'continuation, and the reassembled bytes lack it', ctx.where(AFB, wr[0][0]), key='PROV:%s::add_fragment:atom_cache_data-overwritten' % FA)
+        else:
+            ctx.ok('C09.7-header-data-kept', 'add_fragment:atom_cache_data', 'the continuation entry point never assigns atom_cache_data', ctx.where(AFB))
+
     # what "expired" means: strictly more time than the timeout has passed since the last fragment; never "expired by default"
     ctx.rule('C09.4-expiry-predicate', 'is_expired compares the time since the last update with the timeout (elapsed > timeout, or now > last_update + timeout); where the deadline cannot be computed '
              '(an overflowing "never" timeout) the answer is "not expired", not "expired"', floor=1)
